@@ -116,6 +116,7 @@ class Slice:
             elif re.fullmatch(r'std::ops::Range<(i32|usize)>', t): self.add(loc + '.s', 'Int'); self.add(loc + '.e', 'Int')
             elif re.fullmatch(r'std::option::Option<(i32|usize)>', t): self.add(loc + '.t', 'Int'); self.add(loc + '.v', 'Int')
             elif re.fullmatch(r'\((i32|usize), bool\)', t): self.add(loc + '.v', 'Int'); self.add(loc + '.o', 'Bool')
+            elif t.startswith('std::result::Result<'): self.add(loc + '.t', 'Int')     # 0 = Ok, 1 = Err
             elif re.fullmatch(r'&mut std::ops::Range<(i32|usize)>', t): pass
         self.add('exh', 'Bool')
         self.refs = {}     # &mut Range local -> range local (syntactic, per function)
@@ -196,6 +197,18 @@ class Slice:
         dst, rv = m.group(1), m.group(2)
         tracked = dst in self.sort or any(c.startswith(dst + '.') for c in self.comp)
         if not tracked:
+            return
+        # Result values: only the discriminant is tracked
+        if (dst + '.t') in self.sort and dst not in self.sort:
+            m2 = re.fullmatch(r'(?:std::result::)?Result::<.*>::(Ok|Err)\(.*\)', rv)
+            if m2:
+                st[dst + '.t'] = '0' if m2.group(1) == 'Ok' else '1'
+                return
+            m2 = re.fullmatch(r'(?:copy |move )(_\d+)', rv)
+            if m2 and (m2.group(1) + '.t') in self.sort:
+                st[dst + '.t'] = st[m2.group(1) + '.t']
+                return
+            self.havoc(st, dst)
             return
         # aggregates
         m2 = re.fullmatch(r'std::ops::Range::<\w+> \{ start: (.*), end: (.*) \}', rv)
@@ -320,6 +333,10 @@ class Slice:
                     elif mi and (dst + '.s') in self.sort and (mi.group(1) + '.s') in self.sort:
                         self.informative.update([dst + '.s', dst + '.e'])
                         st2[dst + '.s'] = st[mi.group(1) + '.s']; st2[dst + '.e'] = st[mi.group(1) + '.e']
+                        rules.append((pre, tgt, st2))
+                    elif 'FromResidual' in call and (dst + '.t') in self.sort:
+                        st2[dst + '.t'] = '1'
+                        self.informative.add(dst + '.t')
                         rules.append((pre, tgt, st2))
                     else:
                         self.havoc(st2, dst)
